@@ -35,6 +35,26 @@ Proof.
     destruct Hq1 as [[-> H2]|[-> H2]]; lia.
 Qed.
 
+(* on a tie the even neighbour is taken *)
+Lemma nearest_int_tie : forall n' D q r, 0 < D -> n' = D * q + r -> 0 <= r < D ->
+  let q1 := match 2 * r ?= D with
+            | Lt => q
+            | Eq => if Z.even q then q else q + 1
+            | Gt => q + 1
+            end in
+  2 * Z.abs (n' - q1 * D) = D -> Z.even q1 = true.
+Proof.
+  intros n' D q r HD Hn Hr q1 Ht.
+  assert (H2 : 2 * r = D).
+  { unfold q1 in Ht. destruct (2 * r ?= D) eqn:C.
+    - apply Z.compare_eq in C. exact C.
+    - rewrite Z.compare_lt_iff in C. lia.
+    - rewrite Z.compare_gt_iff in C. lia. }
+  unfold q1. rewrite (proj2 (Z.compare_eq_iff _ _) H2).
+  destruct (Z.even q) eqn:E; [exact E|].
+  rewrite Z.even_add. rewrite E. reflexivity.
+Qed.
+
 (* (n' - k*S) scaled to the common unit 2^-1074/den *)
 Lemma scale_unit : forall num den e0 k, -1074 <= e0 ->
   num * 2 ^ 1074 - k * 2 ^ (e0 + 1074) * den =
@@ -57,7 +77,10 @@ Lemma round_ratio_cases : forall neg num den, 0 < num -> 0 < den ->
        match q2 with
        | Zpos m => if e2 <=? emax_d then S754_finite neg m e2 else S754_infinity neg
        | _ => S754_zero neg
-       end).
+       end) /\
+    (2 * Z.abs (num * 2 ^ 1074 - q1 * 2 ^ (e0 + 1074) * den) = 2 ^ (e0 + 1074) * den -> Z.even q1 = true) /\
+    num * 2 ^ 1074 < two53 * 2 ^ (e0 + 1074) * den /\
+    e0 = Z.max (-1074) (ratio_log2 num den - 52).
 Proof.
   intros neg num den E0 Hden. unfold round_ratio.
   destruct (num <=? 0) eqn:E; [apply Z.leb_le in E; lia|]. clear E.
@@ -89,6 +112,7 @@ Proof.
   assert (Hq53 : q < two53) by nia.
   assert (Hq52 : e = L - 52 -> two52 <= q) by (intros He; specialize (F2 He); nia).
   pose proof (fun k => nearest_int n' d' q r k Hd' Hdm Hr) as Hnear. cbv zeta in Hnear.
+  pose proof (nearest_int_tie n' d' q r Hd' Hdm Hr) as Htie. cbv zeta in Htie.
   set (q1 := match 2 * r ?= d' with
              | Eq => if Z.even q then q else q + 1
              | Lt => q
@@ -98,7 +122,7 @@ Proof.
   { unfold q1. destruct (2 * r ?= d'); [destruct (Z.even q)| |]; auto. }
   clearbody q1.
   assert (PG : 0 < 2 ^ (1074 - Z.max (- e) 0)) by (apply pow2_pos; lia).
-  exists e, q1. split; [exact He74|]. split; [lia|]. split; [|split].
+  exists e, q1. split; [exact He74|]. split; [lia|]. split; [|split; [|split; [|split; [|split]]]].
   - intros k. rewrite !(scale_unit num den e) by exact He74. fold n' d'.
     rewrite !Z.abs_mul. rewrite (Z.abs_eq (2 ^ _)) by lia.
     apply Z.mul_le_mono_nonneg_r; [lia|]. apply Hnear.
@@ -108,6 +132,19 @@ Proof.
     assert (0 <= (n' - two52 * d') * 2 ^ (1074 - Z.max (- e) 0)) by (apply Z.mul_nonneg_nonneg; lia).
     lia.
   - reflexivity.
+  - intros Ht. apply Htie.
+    pose proof (scale_unit num den e q1 He74) as Hs. fold n' d' in Hs.
+    pose proof (scale_unit num den e 1 He74) as Hs1. fold n' d' in Hs1.
+    rewrite Hs in Ht. rewrite Z.abs_mul in Ht. rewrite (Z.abs_eq (2 ^ _)) in Ht by lia.
+    assert (HU : 2 ^ (e + 1074) * den = d' * 2 ^ (1074 - Z.max (- e) 0)).
+    { replace (e + 1074) with (Z.max e 0 + (1074 - Z.max (- e) 0)) by lia.
+      rewrite Z.pow_add_r by lia. unfold d'. ring. }
+    rewrite HU in Ht.
+    apply (Z.mul_cancel_r _ _ (2 ^ (1074 - Z.max (- e) 0))); [lia|]. lia.
+  - pose proof (scale_unit num den e two53 He74) as Hs. fold n' d' in Hs.
+    assert (0 < (two53 * d' - n') * 2 ^ (1074 - Z.max (- e) 0)) by (apply Z.mul_pos_pos; lia).
+    lia.
+  - unfold e, emin_d. reflexivity.
 Qed.
 
 Theorem round_ratio_nearest : forall neg num den s m e, 0 < num -> 0 < den ->
@@ -115,7 +152,7 @@ Theorem round_ratio_nearest : forall neg num den s m e, 0 < num -> 0 < den ->
   s = neg /\ forall m' e', finite_ok m' e' -> closer_eq num den (Zpos m) e (Zpos m') e'.
 Proof.
   intros neg num den s m e Hn Hd H.
-  destruct (round_ratio_cases neg num den Hn Hd) as (e0 & q1 & He0 & Hq1 & Hnear & Hbig & Heq).
+  destruct (round_ratio_cases neg num den Hn Hd) as (e0 & q1 & He0 & Hq1 & Hnear & Hbig & Heq & _).
   rewrite Heq in H. clear Heq.
   (* the value of the result is q1 * 2^e0 *)
   assert (Hval : s = neg /\ Zpos m * 2 ^ (e + 1074) = q1 * 2 ^ (e0 + 1074)).
@@ -163,7 +200,7 @@ Theorem round_ratio_zero_nearest : forall neg num den s, 0 < num -> 0 < den ->
   s = neg /\ forall m' e', finite_ok m' e' -> closer_eq num den 0 (-1074) (Zpos m') e'.
 Proof.
   intros neg num den s Hn Hd H.
-  destruct (round_ratio_cases neg num den Hn Hd) as (e0 & q1 & He0 & Hq1 & Hnear & Hbig & Heq).
+  destruct (round_ratio_cases neg num den Hn Hd) as (e0 & q1 & He0 & Hq1 & Hnear & Hbig & Heq & _).
   rewrite Heq in H. clear Heq.
   assert (Hz : s = neg /\ q1 = 0).
   { destruct (q1 =? two53) eqn:E53.
@@ -187,7 +224,7 @@ Theorem round_ratio_inf_threshold : forall neg num den s, 0 < num -> 0 < den ->
   s = neg /\ (2 ^ 54 - 1) * 2 ^ 970 * den <= num.
 Proof.
   intros neg num den s Hn Hd H.
-  destruct (round_ratio_cases neg num den Hn Hd) as (e0 & q1 & He0 & Hq1 & Hnear & Hbig & Heq).
+  destruct (round_ratio_cases neg num den Hn Hd) as (e0 & q1 & He0 & Hq1 & Hnear & Hbig & Heq & _).
   rewrite Heq in H. clear Heq.
   assert (P : 0 < 2 ^ 1074) by (apply pow2_pos; lia).
   assert (Hc : s = neg /\ ((q1 = two53 /\ 971 <= e0) \/ 972 <= e0)).
@@ -247,3 +284,82 @@ Print Assumptions nearest_double_correct_partial.
 Example nearest_double_correct_sat :
   nearest_double false 1 (-1) = S754_finite false 7205759403792794 (-56) /\ finite_ok 7205759403792794 (-56).
 Proof. split; [vm_compute; reflexivity|]. left. unfold two52, two53. lia. Qed.
+
+(* ------------------------------------------------------------------ *)
+(* FULL statement for nearest_double, early exits included             *)
+
+Definition nd_num (d e10 : Z) : Z := d * 10 ^ Z.max e10 0.
+Definition nd_den (e10 : Z) : Z := 10 ^ Z.max (- e10) 0.
+
+Lemma round_ratio_not_nan : forall neg num den, 0 < num -> 0 < den -> round_ratio neg num den <> S754_nan.
+Proof.
+  intros neg num den Hn Hd H.
+  destruct (round_ratio_cases neg num den Hn Hd) as (e0 & q1 & He0 & Hq1 & Hnear & Hbig & Heq & _).
+  rewrite Heq in H. clear Heq.
+  destruct (q1 =? two53).
+  - change two52 with (Zpos 4503599627370496) in H. destruct (e0 + 1 <=? emax_d); discriminate.
+  - destruct q1 as [|p|p]; try discriminate. destruct (e0 <=? emax_d); discriminate.
+Qed.
+
+Lemma pow8_le_pow10 : forall k, 0 <= k -> 2 ^ (3 * k) <= 10 ^ k.
+Proof.
+  intros k Hk. rewrite Z.pow_mul_r by lia. change (2 ^ 3) with 8.
+  apply Z.pow_le_mono_l. lia.
+Qed.
+
+Lemma overflow_const : (2 ^ 54 - 1) * 2 ^ 970 <= 10 ^ 311.
+Proof. apply Z.leb_le. vm_compute. reflexivity. Qed.
+
+Theorem nearest_double_correct : forall neg d e10, 0 < d ->
+  match nearest_double neg d e10 with
+  | S754_finite s m e =>
+    s = neg /\ forall m' e', finite_ok m' e' ->
+      closer_eq (nd_num d e10) (nd_den e10) (Zpos m) e (Zpos m') e'
+  | S754_zero s =>
+    s = neg /\ forall m' e', finite_ok m' e' ->
+      closer_eq (nd_num d e10) (nd_den e10) 0 (-1074) (Zpos m') e'
+  | S754_infinity s => s = neg /\ (2 ^ 54 - 1) * 2 ^ 970 * nd_den e10 <= nd_num d e10
+  | S754_nan => False
+  end.
+Proof.
+  intros neg d e10 Hd. unfold nearest_double.
+  destruct (d <=? 0) eqn:E0; [apply Z.leb_le in E0; lia|]. clear E0.
+  destruct (310 <? e10) eqn:E1.
+  - (* overflow exit *)
+    apply Z.ltb_lt in E1. split; [reflexivity|]. unfold nd_num, nd_den.
+    replace (Z.max (- e10) 0) with 0 by lia. replace (Z.max e10 0) with e10 by lia.
+    change (10 ^ 0) with 1. rewrite Z.mul_1_r.
+    assert (10 ^ 311 <= 10 ^ e10) by (apply Z.pow_le_mono_r; lia).
+    pose proof overflow_const. nia.
+  - destruct ((e10 <? -1100) && (3 * e10 + Z.log2 d + 1 <? -1075)) eqn:E2.
+    + (* underflow exit: the value is below half the least subnormal *)
+      apply andb_prop in E2. destruct E2 as [E2 E3]. apply Z.ltb_lt in E2. apply Z.ltb_lt in E3.
+      split; [reflexivity|]. intros m' e' Hok. unfold closer_eq, nd_num, nd_den.
+      replace (Z.max (- e10) 0) with (- e10) by lia. replace (Z.max e10 0) with 0 by lia.
+      change (10 ^ 0) with 1. rewrite Z.mul_1_r.
+      set (k := - e10). set (T := 10 ^ k).
+      assert (Hsmall : d * 2 ^ 1075 < T).
+      { pose proof (log2_bounds d Hd) as [_ Hl]. pose proof (Z.log2_nonneg d) as Hl0.
+        assert (d * 2 ^ 1075 < 2 ^ (Z.log2 d + 1) * 2 ^ 1075) by (apply Z.mul_lt_mono_pos_r; [apply pow2_pos|]; lia).
+        rewrite <- Z.pow_add_r in H by lia.
+        assert (2 ^ (Z.log2 d + 1 + 1075) <= 2 ^ (3 * k)) by (apply Z.pow_le_mono_r; unfold k; lia).
+        pose proof (pow8_le_pow10 k ltac:(unfold k; lia)). unfold T. lia. }
+      assert (He' : -1074 <= e') by (destruct Hok as [[? ?]|[? ?]]; lia).
+      assert (P1 : 1 <= 2 ^ (e' + 1074)) by (pose proof (pow2_pos (e' + 1074) ltac:(lia)); lia).
+      assert (HT : 0 < T) by (unfold T; apply Z.pow_pos_nonneg; unfold k; lia).
+      assert (HX : T <= Zpos m' * 2 ^ (e' + 1074) * T).
+      { assert (1 * T <= (Zpos m' * 2 ^ (e' + 1074)) * T) by (apply Z.mul_le_mono_nonneg_r; nia). lia. }
+      replace (2 ^ 1075) with (2 * 2 ^ 1074) in Hsmall by reflexivity.
+      assert (0 < d * 2 ^ 1074) by (apply Z.mul_pos_pos; [lia|apply pow2_pos; lia]).
+      lia.
+    + (* the general path *)
+      assert (Hnum : 0 < d * 10 ^ Z.max e10 0) by (apply Z.mul_pos_pos; [lia|apply Z.pow_pos_nonneg; lia]).
+      assert (Hden : 0 < 10 ^ Z.max (- e10) 0) by (apply Z.pow_pos_nonneg; lia).
+      fold (nd_num d e10) in *. fold (nd_den e10) in *.
+      destruct (round_ratio neg (nd_num d e10) (nd_den e10)) as [s|s| |s m e] eqn:R.
+      * apply round_ratio_zero_nearest in R; assumption.
+      * apply round_ratio_inf_threshold in R; assumption.
+      * exact (round_ratio_not_nan _ _ _ Hnum Hden R).
+      * apply round_ratio_nearest in R; assumption.
+Qed.
+Print Assumptions nearest_double_correct.
